@@ -30,7 +30,18 @@ pub fn judge(v: f64, acc: f32, max_den: u8, max_whole: u32, r: Option<Number>) -
     if !(v > 0.0) || !v.is_finite() {
         return bad("nonpositive_or_nonfinite_accepted", format!("{v} gave {n:?}"));
     }
+    // the exact value by my own recomposition (not only through Number::value(), which is part of what is judged)
+    let mine = match n {
+        Number::Regular(x) => x,
+        Number::Fraction { whole, num, den, err } => whole as f64 + err + num as f64 / den as f64,
+    };
     let back = n.value();
+    if ulps(back, mine) > 2 {
+        return bad("value_method_disagrees_with_fields", format!("{n:?}: value() gives {back:e}, the fields give {mine:e}"));
+    }
+    if ulps(mine, v) > 4 {
+        return bad("value_misstated", format!("input {v:e} but result {n:?} denotes {mine:e}"));
+    }
     if ulps(back, v) > 4 {
         return bad("value_misstated", format!("input {v:e} but result {n:?} has value {back:e}"));
     }
